@@ -121,7 +121,7 @@ def fail_scenario(rng, n, byz=0.0, restart=False):
         conf = byz_conf(rng, t.blocks[parent][1] + 1) if rng.random() < byz else None
         i = t.mk(parent, bp, conf, track=not bad)
         if bad:
-            ops.append(["BAD", i])
+            ops.append(["BAD" if rng.random() < 0.6 else "REF", i])
         ops.append(["D", 0, i])
         if restart and rng.random() < 0.25:
             ops.append(["S", 0] if rng.random() < 0.7 else ["R", 0])
@@ -144,6 +144,62 @@ def fail_scenario(rng, n, byz=0.0, restart=False):
             if badpos is None and len(br) - 1 > d:
                 main = main[:root_idx] + br
     return {"n": n, "nodes": 1, "self": [rng.randrange(-1, n)], "fail": True, "ops": ops}
+
+
+def abandoned_reorg_sweep(n=4):
+    """Deterministic sweep of abandoned reorganisations: main chain of m blocks, a branch forking d
+    blocks below the best block and growing to d+2 blocks, whose p-th block (p = 1..d+2: below, AT
+    and above the height of the old best block) fails, for both failure kinds: execution failure
+    (["BAD", id]: executeBlock's Update(best) + reorg's Update(best)) and refusal by IsBlockValid
+    (["REF", id]: reorg's Update(best) only).  Every further branch block retries the
+    reorganisation; then the main chain goes on with honest blocks and the node is restarted."""
+    out = []
+    for m in (3, 4):
+        for d in range(1, m + 1):
+            tot = d + 2
+            for p in range(1, tot + 1):
+                for kind in ("BAD", "REF"):
+                    t = Tree()
+                    main = [0]
+                    for k in range(m):
+                        main.append(t.mk(main[-1], k % n))
+                        t.ops.append(["D", 0, main[-1]])
+                    tip = main[m - d]
+                    for k in range(1, tot + 1):
+                        bad = k == p
+                        tip = t.mk(tip, (m + k) % n, None, track=not bad)
+                        if bad:
+                            t.ops.append([kind, tip])
+                        t.ops.append(["D", 0, tip])
+                    for k in range(n + 2):
+                        main.append(t.mk(main[-1], (m + k) % n))
+                        t.ops.append(["D", 0, main[-1]])
+                    t.ops.append(["S", 0])
+                    out.append({"n": n, "nodes": 1, "self": [-1], "fail": True, "ops": t.ops,
+                                "shape": "abandoned reorg m=%d fork depth=%d failing=%d kind=%s" % (m, d, p, kind)})
+    return out
+
+
+def chain_abandoned_sweep():
+    """The same sweep for the chain-side engine (["BX"|"BR", id, parent])."""
+    out = []
+    for m in (2, 3):
+        for d in range(1, m + 1):
+            tot = d + 2
+            for p in range(1, tot + 1):
+                for kind in ("BX", "BR"):
+                    ops = []
+                    nid = 1
+                    main = [0]
+                    for k in range(m):
+                        ops.append(["B", nid, main[-1]]); ops.append(["D", nid]); main.append(nid); nid += 1
+                    tip = main[m - d]
+                    for k in range(1, tot + 1):
+                        ops.append([kind if k == p else "B", nid, tip]); ops.append(["D", nid]); tip = nid; nid += 1
+                    for k in range(2):
+                        ops.append(["B", nid, main[-1]]); ops.append(["D", nid]); main.append(nid); nid += 1
+                    out.append({"chain": True, "fail": True, "ops": ops})
+    return out
 
 
 def crash_scenario(rng, n, byz=0.0):
@@ -472,9 +528,68 @@ def election_boundary_reorg(rng, boundary=None):
     return {"election": True, "n": n, "nodes": 1, "self": [0], "ops": ops}
 
 
+def election_fork_across_boundary(rng, winner_first):
+    """BPCOUNT constant.  Two branches fork below the election boundary 200 and commit different
+    vote rankings at height 200; the node ends on branch W.  Arrival orders: the loser's boundary
+    block is executed first and the winner's replaces it in the rollforward (winner_first False),
+    or the winner's first, then a reorganisation to the loser, then back to the winner (True).
+    The chain then continues past 300, where the snapshot of height 200 becomes the producer set,
+    with restarts around it."""
+    n = 3
+    gen = [0, 1, 2]
+    RW = [4, 5, 6]
+    RL = [7, 0, 3]
+    ops = [["T", 1, [0, 1, 2, 3], 3], ["T", 2, RW + [1], 3], ["T", 3, RL + [2], 3]]
+    blocks = {0: (None, 0)}
+    lpb = {}
+    nid = [1]
+
+    def mk(parent, sid, prods):
+        no = blocks[parent][1] + 1
+        bp = prods[no % len(prods)]
+        i = nid[0]
+        nid[0] += 1
+        blocks[i] = (parent, no)
+        ops.append(["B", i, parent, bp, max(1, no - lpb.get(bp, 0)), sid])
+        lpb[bp] = no
+        ops.append(["D", 0, i])
+        return i
+    tip = 0
+    fork_no = 200 - rng.randrange(1, 4)
+    for k in range(1, fork_no + 1):
+        tip = mk(tip, 1, gen)
+    root = tip
+    w = l = root
+    first, second = (2, 3) if winner_first else (3, 2)
+    # first branch becomes the main chain across the boundary
+    a = root
+    for k in range(fork_no + 1, 203):
+        a = mk(a, first, gen)
+    # second branch outgrows it
+    b = root
+    for k in range(fork_no + 1, 205):
+        b = mk(b, second, gen)
+    if winner_first:
+        # ... and the first (winner) wins back
+        for k in range(203, 207):
+            a = mk(a, first, gen)
+        tip = a
+    else:
+        tip = b
+    ops.append(["S", 0])
+    for k in range(blocks[tip][1] + 1, 312):
+        no = k
+        prods = gen if no <= 300 else RW
+        tip = mk(tip, 2, prods)
+        if no in (299, 300, 301, 305):
+            ops.append(["S", 0] if no != 305 else ["R", 0])
+    return {"election": True, "n": n, "nodes": 1, "self": [0], "ops": ops}
+
+
 def generate_election(rng, quick):
     out = [election_scenario(rng, with_fork=rng.random() < 0.5, bpcount_change=False), election_scenario(rng),
-           election_boundary_reorg(rng, 300), election_boundary_reorg(rng, 400)]
+           election_boundary_reorg(rng, 300), election_boundary_reorg(rng, 400),
+           election_fork_across_boundary(rng, False), election_fork_across_boundary(rng, True)]
     if not quick:
         out += [election_scenario(rng, with_fork=False, bpcount_change=False)] + [election_scenario(rng) for _ in range(20)] + [election_boundary_reorg(rng) for _ in range(10)]
     return out
@@ -494,7 +609,7 @@ def chain_fail_scenario(rng):
         i = nid[0]
         nid[0] += 1
         blocks[i] = (parent, blocks[parent][1] + 1)
-        ops.append(["BX" if bad else "B", i, parent])
+        ops.append([("BX" if rng.random() < 0.6 else "BR") if bad else "B", i, parent])
         ops.append(["D", i])
         return i
     for _ in range(rng.randrange(2, 4)):
@@ -520,7 +635,7 @@ def chain_fail_scenario(rng):
 
 def generate_chain(rng, quick):
     return ([chain_scenario(rng, rng.randrange(2, 6)) for _ in range(12 if quick else 150)] +
-            [chain_fail_scenario(rng) for _ in range(6 if quick else 60)])
+            [chain_fail_scenario(rng) for _ in range(6 if quick else 60)] + chain_abandoned_sweep())
 
 
 def exhaustive_linear(n, length, restart=True):
@@ -623,6 +738,7 @@ def generate(rng, quick):
     for _ in range(5 * k):
         n = rng.choice([3, 4, 4, 5, 6, 7])
         sc.append(forks(rng, n, rng.randrange(2, 6), byz=0.3, restart=rng.choice(["none", "mixed", "shadow"])))
+    sc += abandoned_reorg_sweep(4) + ([] if quick else abandoned_reorg_sweep(3))
     for _ in range(6 * k):
         sc.append(fail_scenario(rng, rng.choice([1, 2, 3, 4, 4, 5]), byz=rng.choice([0.0, 0.0, 0.3]), restart=rng.random() < 0.5))
     for _ in range(5 * k):
